@@ -1188,6 +1188,51 @@ def check_C19(ctx):
     with ctx.total("C19.no-panic"):
         ctx.guard("C19.ctor", ctors)
 
+    # every other constructor "from parts": an associated function of a container that takes words / smaller hands /
+    # arrays and returns the container must hand back exactly the given words, in the order given
+    def other_ctors():
+        known = {pdb.inherent(TWO, "new"), pdb.inherent(FIVE, "new"), pdb.inherent(SIX, "from_1_and_2_and_3"), pdb.inherent(SEVEN, "new")}
+        cont_n = dict(CONTAINERS)
+        for key, fn in sorted(pdb.fns.items()):
+            cont = fn["container"]
+            if cont.get("kind") != "impl" or cont.get("trait") or cont.get("derived") or cont.get("self_ty") not in cont_n or key in known:
+                continue
+            mir = fn["mir"]
+            if mir["arg_count"] < 1 or pdb.tys(mir["locals"][0]) != cont["self_ty"]:
+                continue
+            params, words, okp = [], [], True
+            for i in range(1, mir["arg_count"] + 1):
+                t = pdb.ty(mir["locals"][i])
+                byref = t["k"] == "ref"
+                tt = pdb.ty(t["to"]) if byref else t
+                ts = tt["s"].replace(" ", "")
+                if ts == "u32":
+                    v = atom("q%d" % i, "u32")
+                    ws = [v]
+                elif tt["s"] in cont_n:
+                    v = ctx.hand(tt["s"], cont_n[tt["s"]], "q%d_" % i)
+                    ws = arr_of(v)
+                elif ts.startswith("[u32;"):
+                    k_ = int(ts[5:-1])
+                    v = agg(("array",), [atom("q%d_%d" % (i, j), "u32") for j in range(k_)])
+                    ws = list(v[2])
+                else:
+                    okp = False
+                    break
+                params.append(("r" if byref else "v", v))
+                words += ws
+            if not okp or len(words) != cont_n[cont["self_ty"]]:
+                continue        # not a constructor from parts (other parameter kinds, or not as many words as slots)
+            try:
+                r = arr_of(ctx.summ(key, params).ret)
+            except Uncertified as u:
+                rep.uncertified("C19.ctor", "%s: %s" % (short(key), u.what), pdb.where(key))
+                continue
+            rep.ob("C19.ctor", short(key), r is not None and len(r) == len(words) and all(g is e for g, e in zip(r, words)),
+                   "%s does not return the given words in the given order: %s" % (short(key), describe_slots(r)), pdb.where(key))
+    with ctx.total("C19.no-panic"):
+        ctx.guard("C19.ctor.other", other_ctors)
+
     # slot selection for every in-range index tuple
     for path, n in ((SIX, 6), (SEVEN, 7)):
         def sel(path=path, n=n):
